@@ -10,6 +10,9 @@ import (
 	"fmt"
 	"math"
 	"math/rand"
+	"os"
+	"path/filepath"
+	"regexp/syntax"
 
 	"github.com/invopop/gobl/num"
 	"goblverif/internal/tr"
@@ -209,6 +212,54 @@ func codecRT(ty, wr string, v int64, e uint32) (ev rtEvent) {
 	return ev
 }
 
+// codecPatterns writes the patterns published for num/amount and num/percentage as syntax trees
+func codecPatterns(repo, out string) error {
+	res := map[string]any{"ok": true}
+	for name, file := range map[string]string{"amount": "num/amount.json", "percentage": "num/percentage.json"} {
+		raw, err := os.ReadFile(filepath.Join(repo, "data", "schemas", file))
+		if err != nil {
+			return err
+		}
+		var doc map[string]any
+		if err := json.Unmarshal(raw, &doc); err != nil {
+			return err
+		}
+		pat := ""
+		var find func(x any)
+		find = func(x any) {
+			switch v := x.(type) {
+			case map[string]any:
+				if p, ok := v["pattern"].(string); ok && pat == "" {
+					pat = p
+				}
+				for _, y := range v {
+					find(y)
+				}
+			case []any:
+				for _, y := range v {
+					find(y)
+				}
+			}
+		}
+		find(doc)
+		re, err := syntax.Parse(pat, syntax.Perl)
+		if err != nil || pat == "" {
+			res["ok"] = false
+			res[name] = &reNode{Op: "empty", R: []int{}, S: []*reNode{}}
+			continue
+		}
+		t, err := reTree(re)
+		if err != nil {
+			res["ok"] = false
+			t = &reNode{Op: "empty", R: []int{}, S: []*reNode{}}
+		}
+		res[name] = t
+		res[name+"_src"] = pat
+	}
+	b, _ := json.Marshal(res)
+	return os.WriteFile(out, b, 0o644)
+}
+
 func codecRecord(seed int64, n int, out string) error {
 	r := rand.New(rand.NewSource(seed))
 	w, err := tr.NewWriter(out)
@@ -312,6 +363,13 @@ func init() {
 		out := fs.String("out", "", "events ndjson")
 		fs.Parse(args)
 		return codecReplay(*in, *out)
+	})
+	register("codec-patterns", func(args []string) error {
+		fs := flag.NewFlagSet("codec-patterns", flag.ExitOnError)
+		repo := fs.String("repo", "/repo", "repository")
+		out := fs.String("out", "", "patterns json")
+		fs.Parse(args)
+		return codecPatterns(*repo, *out)
 	})
 	register("codec-record", func(args []string) error {
 		fs := flag.NewFlagSet("codec-record", flag.ExitOnError)
